@@ -235,69 +235,81 @@ def run(chk):
     if chkfn is None:
         r2.require(False, f"{DS}:_check_developer_mode|present", "settings.py", "recursive _check_developer_mode function vanished")
     else:
-        p = chkfn.params[0]
-        loops = [n for n in walk_no_nested(chkfn.node) if isinstance(n, ast.For) and unparse(n.iter) == f"{p}.model_fields.items()"]
-        if not loops:
-            r2.require(False, f"{chkfn.key}|iterates-all-fields", chkfn.where(), "the checker no longer iterates over every model field")
-        else:
-            loop = loops[0]
-            kname, vname = (x.id for x in loop.target.elts)
-            cfg = CFG(chkfn.node)
-            raises = [n for n in ast.walk(loop) if isinstance(n, ast.Raise)]
-            rec_calls = [fi_st for fi_st in cfg.stmts() if isinstance(fi_st, ast.Expr) and isinstance(fi_st.value, ast.Call) and unparse(fi_st.value.func) == "_check_developer_mode"]
-            def atom2(e):
-                s, neg = boolalg.strip_truthiness(e)
-                t = unparse(s)
-                if t == f"isinstance(getattr({p}, {kname}), BaseSettings)":
-                    return ("nested", neg)
-                if t in (f"{vname}.json_schema_extra['developer']", f"{vname}.json_schema_extra.get('developer')"):
-                    return ("developer", neg)
-                if isinstance(s, ast.Compare) and len(s.ops) == 1 and isinstance(s.ops[0], (ast.NotEq, ast.Eq)):
-                    a, b = unparse(s.left), unparse(s.comparators[0])
-                    if {a, b} == {f"getattr({p}, {kname})", f"{vname}.default"}:
-                        return ("changed", neg != isinstance(s.ops[0], ast.Eq))
-                if isinstance(s, ast.Compare) and len(s.ops) == 1 and isinstance(s.ops[0], (ast.IsNot, ast.Is, ast.NotEq, ast.Eq)):
-                    a, b = unparse(s.left), unparse(s.comparators[0])
-                    if {a, b} == {f"{vname}.default_factory", "None"}:
-                        return ("hasfactory", neg != isinstance(s.ops[0], (ast.Is, ast.Eq)))
-                    if {a, b} == {f"type(getattr({p}, {kname}))", f"{vname}.default_factory"}:
-                        return ("wrongclass", neg != isinstance(s.ops[0], (ast.Is, ast.Eq)))
-                return None
-            bad = []
-            for env in boolalg.assignments(["nested", "developer", "changed", "hasfactory", "wrongclass"]):
-                ev = lambda t, env=env: boolalg.ev3(t, atom2, env)
-                from engine.cfg import feasible_set
-                reach = feasible_set(cfg, ev, src=id(loop.body[0]))
-                does_raise = any(id(r) in reach for r in raises)
-                does_rec = any(id(s) in reach for s in rec_calls)
-                want_raise = (not env["nested"]) and env["developer"] and env["changed"]
-                if env["nested"]:
-                    # a nested object may only be rejected for being of another class than the declared default (developer-only fields)
-                    may_raise = env["developer"] and env["hasfactory"] and env["wrongclass"]
-                    if does_raise and not may_raise:
-                        bad.append((env, "raises for a nested settings object of the declared class"))
-                    if env["nested"] and not does_rec and not may_raise:
-                        bad.append((env, "does not recurse into the nested settings object"))
-                    continue
-                if does_raise != want_raise:
-                    bad.append((env, "raises" if does_raise else "does not raise"))
-                if env["nested"] and not does_rec:
-                    bad.append((env, "does not recurse into the nested settings object"))
-            r2.require(not bad, f"{chkfn.key}|truth-table", chkfn.where(),
-                       f"recursive checker must raise iff (not nested) and developer-only and value != default, and recurse into nested settings; deviations: {bad[:3]}",
-                       sample={"atoms": ["nested", "developer", "changed", "hasfactory", "wrongclass"], "rows": 32})
-            rc_ok = all(unparse(s.value.args[0]) == f"getattr({p}, {kname})" for s in rec_calls) and bool(rec_calls)
-            r2.require(rc_ok, f"{chkfn.key}|recursion-argument", chkfn.where(), "the recursion must descend into the nested value getattr(obj, field)")
-            # nested value's class must be pinned to the declared default factory (else a subclass instance carries other defaults through the lock)
-            pins = False
-            for env in ({"nested": True, "developer": True, "changed": False, "hasfactory": True, "wrongclass": True},):
-                ev = lambda t, env=env: boolalg.ev3(t, atom2, env)
-                reach = feasible_set(cfg, ev, src=id(loop.body[0]))
-                # with a wrong-class nested object of a developer-only field every path must raise: EXIT and the next iteration are unreachable
-                pins = any(id(r) in reach for r in raises) and not any(id(s) in reach for s in rec_calls)
-            r2.require(pins, f"{chkfn.key}|nested-class-pinned", chkfn.where(),
-                       "the checker compares a nested settings object only with the defaults of the object's *own* class: an instance of a subclass with different defaults "
-                       "(DailySettings(split_selection=Split_Selection_Legacy_Definition())) changes developer-only values without developer_mode")
+        # The recursive checker is interpreted from its AST (engine/pyinterp + engine/absint) on abstract settings objects: one field per
+        # object, over every combination of {nested, developer-only, changed, has a default factory, value of another class} and, for
+        # nested values, an inner object that does / does not carry a changed developer-only field (to observe the recursion).
+        from engine.absint import AbsObj, ClassRef, ModuleEnv
+        from engine.pyinterp import Function, Interp, InterpRaised, Stub, Unsupported
+
+        class _Field(Stub):
+            def __init__(self, developer, default, factory):
+                self.json_schema_extra = {"developer": developer}
+                self.default = default
+                self.default_factory = factory
+
+        def _obj(fields, values, cls_ref):
+            o = AbsObj({"BaseSettings", cls_ref.name}, model_fields=fields)
+            o._abs_type = cls_ref
+            for k_, v_ in values.items():
+                setattr(o, k_, v_)
+            return o
+
+        def _run(obj):
+            it = Interp(step_limit=50_000)
+            env = ModuleEnv(chk.repo, chkfn.module, it, {})
+            try:
+                r_ = Function(chkfn.node, env, it)(obj)
+                return ("returns", r_ is obj)
+            except InterpRaised as e:
+                return ("raises", e.exc_name.split(".")[-1])
+        bad = []
+        rows = 0
+        try:
+            DECL, OTHER, INNER = ClassRef("DeclaredSettings"), ClassRef("SubclassWithOtherDefaults"), ClassRef("Inner")
+            # plain (non-nested) field
+            for developer in (False, True):
+                for changed in (False, True):
+                    for factory in (None, DECL):
+                        rows += 1
+                        o = _obj({"f": _Field(developer, 5, factory)}, {"f": 6 if changed else 5}, ClassRef("Top"))
+                        got = _run(o)
+                        want = ("raises", "ValueError") if (developer and changed) else ("returns", True)
+                        if got != want:
+                            bad.append(({"nested": False, "developer": developer, "changed": changed, "hasfactory": factory is not None}, f"{got} (expected {want})"))
+            # nested settings object
+            for developer in (False, True):
+                for hasfactory in (False, True):
+                    for wrongclass in (False, True):
+                        for inner_changed in (False, True):
+                            rows += 1
+                            inner = _obj({"g": _Field(True, 1, None)}, {"g": 2 if inner_changed else 1}, OTHER if wrongclass else DECL)
+                            o = _obj({"f": _Field(developer, None, DECL if hasfactory else None)}, {"f": inner}, ClassRef("Top"))
+                            got = _run(o)
+                            must = (developer and hasfactory and wrongclass) or inner_changed
+                            want = ("raises", "ValueError") if must else ("returns", True)
+                            if got != want:
+                                why = "a nested object of another class than the declared default factory passes (its own defaults are used for the comparison)" if (developer and hasfactory and wrongclass and not inner_changed) \
+                                    else ("does not recurse into the nested settings object" if inner_changed and got[0] == "returns" else "raises for a nested settings object of the declared class")
+                                bad.append(({"nested": True, "developer": developer, "hasfactory": hasfactory, "wrongclass": wrongclass, "inner_changed": inner_changed}, f"{got} (expected {want}): {why}"))
+            # two fields: the check must not stop at the first field
+            rows += 1
+            o = _obj({"a": _Field(False, 1, None), "b": _Field(True, 1, None)}, {"a": 1, "b": 2}, ClassRef("Top"))
+            if _run(o) != ("raises", "ValueError"):
+                bad.append(({"fields": 2}, "a changed developer-only second field passes: the checker no longer iterates over every model field"))
+        except Unsupported as e:
+            raise AnalysisError(f"{chkfn.key}: the recursive checker uses an operation outside the modelled subset: {e}")
+        pin_bad = [b_ for b_ in bad if b_[0].get("nested") and b_[0].get("wrongclass") and b_[0].get("developer") and b_[0].get("hasfactory") and not b_[0].get("inner_changed")]
+        rec_bad = [b_ for b_ in bad if b_[0].get("nested") and b_[0].get("inner_changed") and "recurse" in b_[1]]
+        it_bad = [b_ for b_ in bad if b_[0].get("fields") == 2]
+        other_bad = [b_ for b_ in bad if b_ not in pin_bad and b_ not in rec_bad and b_ not in it_bad]
+        r2.require(not other_bad, f"{chkfn.key}|truth-table", chkfn.where(),
+                   f"recursive checker must raise iff (not nested) and developer-only and value != default (nested values: iff of another class than the declared factory, or the nested object itself is rejected); deviations: {other_bad[:3]}",
+                   sample={"interpreted_cases": rows})
+        r2.require(not rec_bad, f"{chkfn.key}|recursion-argument", chkfn.where(), f"the recursion must descend into the nested value getattr(obj, field): {rec_bad[:1]}")
+        r2.require(not it_bad, f"{chkfn.key}|iterates-all-fields", chkfn.where(), f"the checker no longer iterates over every model field: {it_bad[:1]}")
+        r2.require(not pin_bad, f"{chkfn.key}|nested-class-pinned", chkfn.where(),
+                   "the checker compares a nested settings object only with the defaults of the object's *own* class: an instance of a subclass with different defaults "
+                   "(DailySettings(split_selection=Split_Selection_Legacy_Definition())) changes developer-only values without developer_mode")
     # every class with a developer field is nested under a locked top-level class
     locked_roots = [ds] + chk.res.subclasses(ds)
     covered = set()
